@@ -39,3 +39,41 @@ Definition c06_link_ok_fixed (buf fixed : nat) (entries : list (list nat)) (ridx
    positive size somewhere *)
 Definition c06_some_positive (entries : list (list nat)) : bool :=
   match entries with [] => true | _ => existsb (fun e => 1 <=? length e) entries end.
+
+(* ------------------------------------------------------------------ the precondition of the property on a whole case
+   (executable: the driver evaluates it on every generated case).  For every entry (p,q) of p's interface map:
+   q is a process, q's map has the entry (q,p) ("symmetric"), the send list of p for q is as long as the receive list
+   of q for p ("matching"), and the buffer can hold every single index p sends ("as long as it can hold the largest
+   single index"). *)
+Definition c06_entry_ok_var (backward : bool) (buf np : nat) (sizes : list (list nat)) (es : list c06_entry) (e : c06_entry) : bool :=
+  (e_q e <? np) &&
+  match c06_find_entry (e_q e) (e_p e) es with
+  | None => false
+  | Some e' => length (c06_send_list backward e) =? length (c06_recv_list backward e')
+  end &&
+  forallb (fun i => c06_size_of sizes (e_p e) i <=? buf) (c06_send_list backward e).
+
+Definition c06_case_ok_var (backward : bool) (buf np : nat) (sizes : list (list nat)) (es : list c06_entry) : bool :=
+  (1 <=? buf) && forallb (c06_entry_ok_var backward buf np sizes es) es.
+
+(* the observation the property fixes, taken from a configuration *)
+Definition c06_observe (c : c06_cfg) : list (nat * nat * list c06_call) :=
+  map (fun l => (l_src l, l_dst l, c06_nonzero (c06_log l))) (c_links c).
+
+(* fixed-size handles: additionally every index p sends to q has the size the tracker was given (handle.size of the
+   first send index of the nearest non-empty send list in map order, see c06_fixed_sizes), which is >= 1 (the
+   assertion in setupInterfaceTrackers) and fits into the buffer *)
+Definition c06_rank_ok_fixed (backward : bool) (buf np : nat) (sizes : list (list nat)) (es : list c06_entry) (p : nat) : bool :=
+  let mine := c06_entries_of p es in
+  forallb (fun ef : c06_entry * nat =>
+             let (e, f) := ef in
+             (e_q e <? np) &&
+             match c06_find_entry (e_q e) p es with
+             | None => false
+             | Some e' => length (c06_send_list backward e) =? length (c06_recv_list backward e')
+             end &&
+             forallb (fun i => c06_size_of sizes p i =? f) (c06_send_list backward e) && (1 <=? f) && (f <=? buf))
+          (combine mine (c06_fixed_sizes backward sizes 1 mine)).
+
+Definition c06_case_ok_fixed (backward : bool) (buf np : nat) (sizes : list (list nat)) (es : list c06_entry) : bool :=
+  forallb (c06_rank_ok_fixed backward buf np sizes es) (seq 0 np).
